@@ -144,6 +144,38 @@ func childMain() {
 			w.Flush()
 		}
 	}
+	// ... and whatever was asked before: a fresh universe of the same packages, asked in the opposite order, gives the same answers
+	if job.Start == 0 {
+		fmt.Fprintf(prog, "BEGIN %d %s\n", len(funcs), "(second universe)")
+		u2, err := load(job.Dir, job.Patterns...)
+		if err != nil {
+			fmt.Fprintln(os.Stderr, "child: second load:", err)
+			os.Exit(97)
+		}
+		funcs2 := enumerateFuncs(u2, job.Closure)
+		if len(funcs2) == len(funcs) {
+			for i := len(funcs2) - 1; i >= 0; i-- {
+				was, ok := first[i]
+				fn := funcs2[i]
+				if !ok || funcName(fn) != funcName(funcs[i]) {
+					continue
+				}
+				name := funcName(fn)
+				fmt.Fprintf(prog, "BEGIN %d %s\n", i, name)
+				p := u2.Package(fn.Pkg().Path())
+				if e := ev.Guard(func() error {
+					r, n := p.ResultsOf(fn)
+					if now := fmt.Sprintf("%s (n=%d)", r, n); now != was {
+						return fmt.Errorf("a fresh universe asked in the opposite order answers %s; the first universe (asked in order) answered %s", now, was)
+					}
+					return nil
+				}); e != nil {
+					_ = enc.Encode(c14Line{Idx: i, Name: name, N: fn.Type().(*types.Signature).Results().Len(), Err: e.Error()})
+					w.Flush()
+				}
+			}
+		}
+	}
 	_ = enc.Encode(c14Line{Done: true, Total: len(funcs)})
 	w.Flush()
 	out.Close()
